@@ -82,14 +82,14 @@ CONF = {
         "rule": "cases = concurrent scenarios: 1-9 bars, queue length from {default, 0, 1, 2, n-1, n, n+1}, refresh none/manual/injected auto/real ticker 1-3 ms, 0-2 synchronised decorators per side with wrapper stacks, pop mode, removal, queued successors, priority changes, 1-2 phases of 1-4 client goroutines issuing up to 10 operations each (updates, aborts, priority changes, Progress.Write, render ticks, late adds, getters, optional cancel/Shutdown), keyed delays at the hook points and one directed hold; every program ends by finishing all bars and calling Wait; non-trivial = >=2 bars and (sync decorators on >=2 bars, n>q, pop mode or concurrent clients); distinct by FNV-64 of the scenario JSON",
         "assumptions": GO_ASSUME + SCHED_ASSUME,
         "tiers": tiers(8, 1200, 16, 15000, gomaxprocs=[4, 2, 8, 1]),
-        "require_classes": ["refresh:autort", "refresh:autoinj", "refresh:manual", "refresh:none", "n>q", "sync>=2bars", "n>q+sync", "pop", "cancelled", "hold", "user-waitgroup", "render-fault", "clocked", "delay-never-released"],
+        "require_classes": ["refresh:autort", "refresh:autoinj", "refresh:manual", "refresh:none", "n>q", "sync>=2bars", "n>q+sync", "pop", "cancelled", "hold", "user-waitgroup", "render-fault", "clocked", "delay-never-released", "decorator-reads-another-bar"],
     },
     "C02": {
         "rule": "cases = concurrent scenarios over the public API (Add, Write, UpdateBarPriority, every Bar mutator and getter, proxies, TraverseDecorators, DecoratorAverageAdjust, Bar.Wait) from 1-4 client goroutines in 1-2 phases, with context cancel or Shutdown inserted at a generated position inside a phase (60% of cases), all refresh modes, queue lengths incl. n>q, perturbation; then 1-12 late calls after Wait returned; non-trivial = the done event lies inside the history and there is >=1 late call; distinct by FNV-64 of the scenario JSON",
         "assumptions": GO_ASSUME + SCHED_ASSUME + ["a worker process that dies (panic in a library goroutine, fatal error) is a violation; the journalled scenario is the replay file", "documented panics (nil reader/writer to a proxy, MustAdd after done, uninitialised WC) are not generated"],
         "crash_is_violation": True,
         "tiers": tiers(8, 1200, 16, 15000, gomaxprocs=[4, 2, 8, 1]),
-        "require_classes": ["refresh:autort", "refresh:autoinj", "refresh:manual", "refresh:none", "done-inside-history", "late-add", "late-write", "late-proxy", "n>q", "call-lost-race-with-done", "render-fault", "bar-id-option"],
+        "require_classes": ["refresh:autort", "refresh:autoinj", "refresh:manual", "refresh:none", "done-inside-history", "late-add", "late-write", "late-proxy", "n>q", "call-lost-race-with-done", "render-fault", "bar-id-option", "debug-output-nil"],
     },
     "C14": {
         "rule": "cases = programs with the cancel event (context cancel or Shutdown) (a) as a step anywhere in a sequential program, (b) inside a concurrent phase of 1-3 client goroutines, (c) fired from inside a library hook point (flush of a bar, bar render, render begin/end, heap-manager request, width sent/collected, bar exit) at occurrence 1-12; all refresh modes, 1-6 bars with shutdown-listening decorators under 0-3 wrapper layers, notifier configured or not; non-trivial = the cancel lands after >=1 Add with >=1 listener and an unfinished bar (or inside the library); distinct by FNV-64 of the scenario JSON",
@@ -109,7 +109,7 @@ CONF = {
         "level": "fault_enumeration",
         "crash_is_violation": True,
         "tiers": tiers(8, 1500, 16, 20000),
-        "require_classes": ["refresh:manual", "refresh:autoinj", "refresh:autort", "fault:filler", "fault:extender", "fault:output", "fault:termsize", "others-sync", "hold", "two-faults-fired", "slow-debug-output"],
+        "require_classes": ["refresh:manual", "refresh:autoinj", "refresh:autort", "fault:filler", "fault:extender", "fault:output", "fault:termsize", "others-sync", "hold", "two-faults-fired", "slow-debug-output", "write-after-error", "no-debug-output"],
     },
     "C16": {
         "rule": "cases = scenarios drawn from the generators of C01 (concurrent clients, n>q, sync decorators), C15 (render faults at every site), C14 (cancel/Shutdown as a step) and C03 (auto refresh with early refresh, pop, queued bars), each run 1-4 times in a row in one process, followed by a goroutine-dump poll; non-trivial = auto refresh, a fired fault, a cancel or a notifier was involved; distinct by FNV-64 of the scenario JSON",
@@ -122,7 +122,7 @@ CONF = {
         "assumptions": GO_ASSUME + SCHED_ASSUME + ["linearizability is decided by porcupine v1.3.0 on the recorded invoke/return history per bar (histories capped at 400 operations, 8 s timeout -> inconclusive)", "operations that reach a bar after its terminal event may be applied or dropped (both legal)", "the Go race detector only reports races on executed accesses; a report counts when the access sites of both goroutines are library code"],
         "crash_is_violation": True,
         "tiers": tiers(8, 600, 16, 12000, q_race_shards=6, q_race_checks=150, t_race_shards=8, t_race_checks=3000, race_gomaxprocs=4),
-        "require_classes": ["refresh:autort", "refresh:autoinj", "refresh:manual", "refresh:none", "shared-bar>=3clients", "quiescent-sum", "getter-after-exit-with-later-render", "cancelled"],
+        "require_classes": ["refresh:autort", "refresh:autoinj", "refresh:manual", "refresh:none", "shared-bar>=3clients", "quiescent-sum", "getter-after-exit-with-later-render", "cancelled", "parallel-adds-shared-style"],
     },
     "C03": {
         "rule": "cases = sequential programs on auto-refreshing containers (render requests injected by the harness racing with the library's early refresh, or a real 1-3 ms ticker): 1-6 bars with on-complete/on-abort fillers and decorator wrapper stacks, removal on completion, aborts with and without drop, pop mode, queued successors, post-terminal updates, optional cancel/Shutdown; non-trivial = >=2 bars, >=1 completed bar in the last frame and >=1 aborted, removed, popped or replaced bar, and no render-cycle step after the last update (the last frame has to come from early refresh or the final render); distinct by FNV-64 of the scenario JSON",
